@@ -124,6 +124,9 @@ pub struct SimInner {
     pub no_v6_socket: bool,
     /// `read_name` loop steps allowed per loop iteration before the thread unwinds.
     pub step_budget: u64,
+    /// Called on the daemon thread after each datagram it sends (with the number sent so
+    /// far), outside the lock: lets the harness act in the middle of an iteration.
+    pub on_egress: Option<Box<dyn FnMut(u64) + Send>>,
 }
 
 pub struct SimCtx {
@@ -181,6 +184,7 @@ impl SimCtx {
                 no_v4_socket: false,
                 no_v6_socket: false,
                 step_budget: 50_000_000,
+                on_egress: None,
             }),
             cv: Condvar::new(),
         })
@@ -643,6 +647,16 @@ impl PktInfoUdpSocket {
                     mcast_if_v6: self.mcast_if_v6.get(),
                     data: buf.to_vec(),
                 });
+                let sent = g.egress.len() as u64;
+                let hook = g.on_egress.take();
+                drop(g);
+                if let Some(mut hook) = hook {
+                    hook(sent);
+                    let mut g = ctx.lock();
+                    if g.on_egress.is_none() {
+                        g.on_egress = Some(hook);
+                    }
+                }
                 Ok(buf.len())
             }
             _ => Ok(buf.len()),
